@@ -3,8 +3,15 @@
    poll results) must be a behaviour of Loop.                                *)
 EXTENDS Loop, Json, IOUtils
 Tr == ndJsonDeserialize(IOEnv.TRACE)
-VARIABLE l
-TraceInit == Init /\ l = 1
+VARIABLES l,
+          nd       \* callbacks dispatched since the loop last polled
+(* An iteration is what lies between two poll calls (the property's own observation point).  "Dispatched within a
+   bounded number of iterations" presupposes that an iteration ends: a loop that goes on dispatching without ever
+   polling again starves every descriptor and is rejected here.  The bound is generous on purpose: the mechanism
+   (LoopImpl.tla, all schedules) dispatches at most 3 levels x 4 items per iteration.                             *)
+IterCap == 64
+IsCb(e) == e \in {"CbJob", "CbTimer", "CbFd", "CbSig"}
+TraceInit == Init /\ l = 1 /\ nd = 0
 ResetState ==
   /\ jobs' = <<>> /\ timers' = <<>> /\ fds' = <<>> /\ sigs' = <<>> /\ kreg' = {} /\ sigq' = <<>>
   /\ now' = BT(0, 1000, 0) /\ seqno' = 0 /\ running' = FALSE /\ stopReq' = FALSE
@@ -40,6 +47,8 @@ TDo(ev) ==
 TraceNext ==
   /\ l <= Len(Tr) /\ l' = l + 1
   /\ IF Tr[l].e = "Reset" THEN ResetState ELSE TDo(Tr[l])
-TraceSpec == TraceInit /\ [][TraceNext]_<<vars, l>>
+  /\ nd' = IF Tr[l].e \in {"Reset", "Poll", "RunBegin"} THEN 0 ELSE IF IsCb(Tr[l].e) THEN nd + 1 ELSE nd
+  /\ nd' <= IterCap
+TraceSpec == TraceInit /\ [][TraceNext]_<<vars, l, nd>>
 TraceAccepted == TLCGet("stats").diameter - 1 = Len(Tr)
 =============================================================================
